@@ -1,6 +1,7 @@
 package wm
 
 import (
+	"errors"
 	"fmt"
 	"io"
 	"runtime/debug"
@@ -186,6 +187,9 @@ type Result struct {
 	Dispatches []*Dispatch
 	Stray      []Ev   // hook events recorded after the last dispatch's window (seen at quiescence)
 	Aborted    string // the history was cut short (transport failure / unsettled hook)
+	// Inconclusive: the history ran into a wall-clock exit (read timeout) or a
+	// socket-level error of the real HTTP listener; nothing about it is a verdict.
+	Inconclusive string
 }
 
 func (e *Env) finish(d *Dispatch, from int) bool {
@@ -273,6 +277,9 @@ func (e *Env) pipeCall(ci int, call Call, res *Result, next *int) (stop string) 
 		d.Key = st.Key(Norm)
 		if err != nil {
 			d.NoResponse = err.Error()
+			if errors.Is(err, wire.ErrReadTimeout) {
+				res.Inconclusive = "read timed out after " + call.Class + " on " + e.Transport
+			}
 		}
 	} else {
 		d.LegKind = "pipe-stream"
@@ -303,6 +310,9 @@ func (e *Env) pipeCall(ci int, call Call, res *Result, next *int) (stop string) 
 		}
 		if r.Err != nil {
 			d.NoResponse = r.Phase + ": " + r.Err.Error()
+			if errors.Is(r.Err, wire.ErrReadTimeout) {
+				res.Inconclusive = "read timed out (" + r.Phase + ") after " + call.Class + " on " + e.Transport
+			}
 		}
 	}
 	d.Witness = map[string]any{"response_b64": gen.B64(e.conn.RawSince(rawMark))}
@@ -355,6 +365,7 @@ func (e *Env) post(d *Dispatch, do func(hdr map[string]string) wire.HTTPResp, ca
 		d.NoResponse = "panic out of ServeHTTP: " + resp.Panic
 	case resp.Err != "":
 		d.NoResponse = "transport: " + resp.Err
+		res.Inconclusive = "HTTP client error on the listener after " + call.Class + ": " + resp.Err
 	}
 	d.Witness = map[string]any{"status": resp.Status, "rpc_error_header": resp.RPCError, "body_b64": gen.B64(resp.Body)}
 	settled := e.finish(d, from)
